@@ -537,6 +537,67 @@ func C18(c *core.Ctx) {
 		}
 		c.Decide(len(unl) == 0, "R18.7", "neighbour-table-under-router-mutex", "-", fmt.Sprintf("%d uses of the neighbour table, all with the router mutex held", nUse), "the neighbour table is used without the router mutex ("+strings.Join(unl, "; ")+") while the Sync Interest handler and the dead-neighbour check write it under the mutex: with neighbours coming up close together the runtime aborts with 'concurrent map read and map write'")
 		c.Floor("R18.7", "uses of the neighbour table in dv/dv", nUse, 4)
+		// and the state of a neighbour that the routing computation reads — the
+		// advertisement and its sequence number — is read and written with the router
+		// mutex held: an update that read the advertisement before it queued for the mutex
+		// can run after the dead-neighbour check removed that neighbour, and re-installs
+		// routes through it that nothing removes any more
+		nNs := 0
+		var unlNs []string
+		for _, fn := range p.FuncsIn(core.ModPath + "/dv/dv") {
+			if strings.HasSuffix(p.File(fn.Pos()), "_test.go") {
+				continue
+			}
+			root := core.RootOf(fn)
+			if root == nil {
+				root = fn
+			}
+			if n := core.BaseName(root); n == "NewRouter" || n == "Start" || n == "Stop" {
+				continue
+			}
+			core.Instrs(fn, func(in ssa.Instruction) {
+				fa, ok := in.(*ssa.FieldAddr)
+				if !ok {
+					return
+				}
+				t, f := core.FieldAddrName(fa)
+				if t != "NeighborState" || (f != "Advert" && f != "AdvertSeq") {
+					return
+				}
+				nNs++
+				if !heldD[fn][in]["W:Router.mutex"] && !heldD[fn][in]["R:Router.mutex"] {
+					unlNs = append(unlNs, core.FuncName(fn)+" ."+f+" at "+c.Pos(in))
+				}
+			})
+		}
+		c.Decide(len(unlNs) == 0, "R18.7", "neighbour-advert-state-under-router-mutex", "-", fmt.Sprintf("%d accesses to a neighbour's advertisement / sequence number, all with the router mutex held", nNs), "a neighbour's advertisement state is read or written without the router mutex ("+strings.Join(unlNs, "; ")+"): a routing update that read it before queueing for the mutex can run after the dead-neighbour check removed the neighbour, and re-installs routes through it that nothing removes any more (they are advertised on, and the network does not converge to the true distances)")
+		c.Floor("R18.7", "accesses to NeighborState.Advert / AdvertSeq in dv/dv", nNs, 3)
+	}
+
+	// ---- R18.9 a fetched advertisement is adopted only when its sequence number EQUALS the
+	// one recorded for the neighbour (the latest announced): the reply to an earlier fetch,
+	// arriving late, must not replace the newer advertisement that was already applied
+	if ah := c.Fn("R18.9", "dv/dv", "Router", "advertDataHandler"); ah != nil {
+		var stores []ssa.Instruction
+		core.InstrsDeep(ah, func(in ssa.Instruction) {
+			if _, _, ok := storeToField(in, "NeighborState", "Advert"); ok {
+				stores = append(stores, in)
+			}
+		})
+		same := &core.Atom{Name: "AdvertSeq == sequence number of the Data", Match: func(cond ssa.Value) (int, int) {
+			op, x, y, ok := core.Cmp(cond)
+			if !ok || (op != token.EQL && op != token.NEQ) {
+				return 0, 0
+			}
+			_, fx := core.FieldOf(x, "AdvertSeq")
+			_, fy := core.FieldOf(y, "AdvertSeq")
+			if fx == fy {
+				return 0, 0
+			}
+			return core.Iff(op == token.EQL)
+		}}
+		g := core.GateDeep(ah, stores, pos(same))
+		c.Decide(len(stores) > 0 && g.OK && g.PassEdges > 0, "R18.9", "advert-adopted-only-for-the-recorded-sequence-number", p.Pos(ah.Pos()), fmt.Sprintf("%d stores of a neighbour's advertisement, behind AdvertSeq == seqNo", len(stores)), "advertDataHandler can adopt an advertisement whose sequence number differs from the one recorded for the neighbour (an order comparison instead of equality, or no test): the late reply to an earlier fetch replaces the newer advertisement already applied, and the routing table goes back to distances that are no longer true")
 	}
 
 	// ---- R18.8 an advertised cost is compared with infinity BEFORE the link cost is added:
